@@ -11,6 +11,7 @@
     nodal field with symbolic coefficients must reproduce the polynomial.
 """
 
+import itertools
 import time
 from fractions import Fraction
 from itertools import product
@@ -329,6 +330,9 @@ def job_search(cfg):
     facade.install()
     et = cfg["elem"]
     mesh = simlib.gmsh_mesh(et, layers=1) if not cfg.get("fine") else simlib.gmsh_mesh(et, size=0.26 if et.startswith("TRI") else 0.4, layers=2)
+    if cfg.get("mixed"):
+        # two element groups of the main dimension (QUAD4 + TRI3): a batch holds points of both groups, in interleaved order
+        mesh = simlib.mixed_mesh_interior()
     if cfg.get("distorted"):
         # general (non-parallelogram) quadrangles / hexahedra with straight edges and planar faces: taper x' = x (1 + 0.3 y) [, y' = y (1 + 0.2 z)];
         # the library inverts the isoparametric map numerically (scipy least_squares, run concretely)
@@ -342,13 +346,13 @@ def job_search(cfg):
         mesh.Rotate(float(np.degrees(np.arctan2(0.8, 0.6))), (0.3, 0.2, 0.0))
     if cfg.get("motion") == "S":
         mesh.Symmetry((0.3, 0.0, 0.0), (1.0, 0.0, 0.0))
-    g = mesh.groupElem
+    g = mesh.groupElem if not cfg.get("mixed") else mesh.Get_list_groupElem(mesh.dim)[0]
     dim, order = g.dim, g.order
     X = mesh.coord
-    key = f"{et} point location through the element search" + ({"R": " (rotated mesh)", "S": " (mirrored mesh)"}.get(cfg.get("motion"), "")) + (" (tapered, non-parallelogram elements)" if cfg.get("distorted") else "") + (" (finer mesh: candidate sets that are not contiguous ranges)" if cfg.get("fine") else "")
-    tol_q = TOL if not cfg.get("distorted") else Fraction(1, 10 ** 8)  # iterative inverse map: its own stopping tolerance
+    key = f"{et} point location through the element search" + ({"R": " (rotated mesh)", "S": " (mirrored mesh)"}.get(cfg.get("motion"), "")) + (" (tapered, non-parallelogram elements)" if cfg.get("distorted") else "") + (" (finer mesh: candidate sets that are not contiguous ranges)" if cfg.get("fine") else "") + (" (mesh with two element groups, QUAD4 + TRI3)" if cfg.get("mixed") else "")
+    tol_q = TOL if not (cfg.get("distorted") or cfg.get("mixed")) else Fraction(1, 10 ** 8)  # iterative inverse map: its own stopping tolerance
     res.functions |= {"Mesh.Evaluate_dofsValues_at_coordinates", "_GroupElem.Get_Mapping", "_GroupElem._Get_Mapping", "_GroupElem._Get_nearby_elements", "_GroupElem.Get_Elements_Nodes", "_GroupElem._Get_coord_Near"}
-    if cfg.get("distorted"):
+    if cfg.get("distorted") or cfg.get("mixed"):
         # on a non-affine element only the fields contained in the isoparametric space are reproduced exactly: the linear ones, for every
         # element type (a quadratic in x, y is a quartic in the reference coordinates once the geometry itself is bilinear / biquadratic)
         order = 1
@@ -370,15 +374,21 @@ def job_search(cfg):
     nv = {"TRI": 3, "QUAD": 4, "TETRA": 4, "HEXA": 8, "PRISM": 6}[et.rstrip("0123456789")]
     conn = g.connect[:, :nv]
     pts, kinds = [], []
-    for e in (range(min(g.Ne, 6)) if not cfg.get("fine") else range(0, g.Ne, max(1, g.Ne // 12))):
-        V = X[conn[e]]
-        pts.append(V[0] * 0.5 + V[1] * 0.25 + V[2] * 0.25 if et.startswith(("TRI", "TETRA")) else V.mean(axis=0))
+    elem_list = [(g, e) for e in (range(min(g.Ne, 6)) if not cfg.get("fine") else range(0, g.Ne, max(1, g.Ne // 12)))]
+    if cfg.get("mixed"):
+        groups = mesh.Get_list_groupElem(mesh.dim)
+        per = [[(gg, e) for e in range(gg.Ne)] for gg in groups]
+        elem_list = [x for tup in itertools.zip_longest(*per) for x in tup if x is not None]  # interleaved: group 0, group 1, group 0, ...
+    for gg, e in elem_list:
+        nvg = {"TRI": 3, "QUAD": 4, "TETRA": 4, "HEXA": 8, "PRISM": 6}[gg.elemType.name.rstrip("0123456789")]
+        V = X[gg.connect[e, :nvg]]
+        pts.append(V[0] * 0.5 + V[1] * 0.25 + V[2] * 0.25 if gg.elemType.name.startswith(("TRI", "TETRA")) else V.mean(axis=0))
         kinds.append("interior")
         pts.append(0.5 * (V[0] + V[1]))
         kinds.append("on an edge")
         pts.append(0.25 * V[1] + 0.75 * V[2])
         kinds.append("on an edge")
-        pts.append(V[e % nv].copy())
+        pts.append(V[e % nvg].copy())
         kinds.append("on a node")
     rng = np.random.default_rng(harness.seed() + 5)
     n_struct = len(pts)
@@ -477,6 +487,7 @@ def main():
         configs.append({"kind": "search", "elem": et, "scatter": 8})
     for et in ["TRI3", "TETRA4"] + (["TRI6", "QUAD4"] if tier == "thorough" else []):
         configs.append({"kind": "search", "elem": et, "fine": True})
+    configs.append({"kind": "search", "elem": "QUAD4", "mixed": True})
     for et in ["QUAD4", "HEXA8"] + (["QUAD8", "QUAD9", "HEXA20"] if tier == "thorough" else []):
         configs.append({"kind": "search", "elem": et, "distorted": True})
     # ... and the same after a reflection (signed Jacobians all negative) or a rotation
